@@ -418,3 +418,73 @@ Check C04_xz_round_trip :
        xz_decompress crc32 crc64 fuel' {| i_src := src_of out frag' None; i_snk := k2 |} = (Done tt, w2) /\
        snk_bytes (i_snk w2) = snk_bytes k2 ++ data /\ s_rest (i_src w2) = []).
 Print Assumptions C04_xz_round_trip.
+
+From LZ Require Import Model.Stream Model.Enc Proofs.StreamSimLoop Proofs.StreamSimData Proofs.LzmaRoundTrip Proofs.StreamExact.
+
+(* round trip through the streaming decoder: lzma_compress output fed in every division into write calls decodes back to the input (all encoder/decoder option pairings of the one-shot round-trip theorems)   [proved as stream_round_trip_gen in Proofs/StreamExact.v] *)
+Theorem C04_stream_round_trip :
+  forall (fuel : positive) (o : enc_unpacked) (o' : options) (data : list N) (frag1 : N -> N) (k1 k2 : snk),
+  Forall (fun b : N => b < 256) data ->
+  k_wfail k1 = None ->
+  k_wfail k2 = None ->
+  k_ffail k2 = false ->
+  nlen data < N.pos fuel ->
+  9 * nlen data + 50 < 4294967296 ->
+  nlen (enc_field o) = HeaderRules.size_field_len (o_unpacked o') ->
+  LzmaExactOpts.memlimit_ok (o_memlimit o') 8388608 ->
+  HeaderRules.size_in_effect (o_unpacked o') (le_num (enc_field o)) = size_needed o data ->
+  o_allow_incomplete o' = false ->
+  exists (file : list N) (w1 : io),
+    lzma_compress fuel o {| i_src := src_of data frag1 None; i_snk := k1 |} = (Done tt, w1) /\
+    snk_bytes (i_snk w1) = snk_bytes k1 ++ file /\
+    (forall pieces : list (list N),
+     concat pieces = file ->
+     exists k' : snk,
+       drive (stream_new o' k2) pieces = (Done tt, k') /\
+       snk_bytes k' = snk_bytes k2 ++ data /\ k_flushes k' = k_flushes k2 + 1).
+Proof. exact (@stream_round_trip_gen). Qed.
+Check C04_stream_round_trip :
+  forall (fuel : positive) (o : enc_unpacked) (o' : options) (data : list N) (frag1 : N -> N) (k1 k2 : snk),
+  Forall (fun b : N => b < 256) data ->
+  k_wfail k1 = None ->
+  k_wfail k2 = None ->
+  k_ffail k2 = false ->
+  nlen data < N.pos fuel ->
+  9 * nlen data + 50 < 4294967296 ->
+  nlen (enc_field o) = HeaderRules.size_field_len (o_unpacked o') ->
+  LzmaExactOpts.memlimit_ok (o_memlimit o') 8388608 ->
+  HeaderRules.size_in_effect (o_unpacked o') (le_num (enc_field o)) = size_needed o data ->
+  o_allow_incomplete o' = false ->
+  exists (file : list N) (w1 : io),
+    lzma_compress fuel o {| i_src := src_of data frag1 None; i_snk := k1 |} = (Done tt, w1) /\
+    snk_bytes (i_snk w1) = snk_bytes k1 ++ file /\
+    (forall pieces : list (list N),
+     concat pieces = file ->
+     exists k' : snk,
+       drive (stream_new o' k2) pieces = (Done tt, k') /\
+       snk_bytes k' = snk_bytes k2 ++ data /\ k_flushes k' = k_flushes k2 + 1).
+Print Assumptions C04_stream_round_trip.
+
+(* the compressor output is a non-empty byte string of at most 42 * len + 60 bytes   [proved as lzma_compress_file in Proofs/StreamExact.v] *)
+Theorem C04_lzma_compress_output_size :
+  forall (fuel : positive) (o : enc_unpacked) (data : list N) (frag : N -> N) (k : snk),
+  Forall (fun b : N => b < 256) data ->
+  k_wfail k = None ->
+  nlen data < N.pos fuel ->
+  9 * nlen data + 50 < 4294967296 ->
+  exists (w' : io) (file : list N),
+    lzma_compress fuel o {| i_src := src_of data frag None; i_snk := k |} = (Done tt, w') /\
+    snk_bytes (i_snk w') = snk_bytes k ++ file /\
+    Forall (fun b : N => b < 256) file /\ file <> [] /\ nlen file <= 42 * nlen data + 60.
+Proof. exact (@lzma_compress_file). Qed.
+Check C04_lzma_compress_output_size :
+  forall (fuel : positive) (o : enc_unpacked) (data : list N) (frag : N -> N) (k : snk),
+  Forall (fun b : N => b < 256) data ->
+  k_wfail k = None ->
+  nlen data < N.pos fuel ->
+  9 * nlen data + 50 < 4294967296 ->
+  exists (w' : io) (file : list N),
+    lzma_compress fuel o {| i_src := src_of data frag None; i_snk := k |} = (Done tt, w') /\
+    snk_bytes (i_snk w') = snk_bytes k ++ file /\
+    Forall (fun b : N => b < 256) file /\ file <> [] /\ nlen file <= 42 * nlen data + 60.
+Print Assumptions C04_lzma_compress_output_size.
